@@ -29,7 +29,7 @@ def col(keys=ALL_KEYS, names=COLS):
 @functools.lru_cache(maxsize=None)
 def raw_value():
     return st.one_of(
-        st.integers(-5, 20), st.sampled_from(["v1", "v2", "it's", ""]), st.sampled_from([1.5, -2.25]),
+        st.integers(-5, 20), st.sampled_from(["v1", "v2", "it's", "", "a\\b"]), st.sampled_from([1.5, -2.25]),
         st.booleans(), st.none(),
     ).map(lambda v: ["raw", v])
 
